@@ -127,6 +127,13 @@ def intact_flow(ctx, report, rule, facts, config):
         bad = []
         for e in ends:
             for x in _deep_all(e.path.events):
+                if x[0] == "store" and x[2][0] != "cell":
+                    # a list replaced as a whole (`mem::take`, `mem::replace`, a plain assignment)
+                    f_, i_, base = Q.table_access(ev, x[2])
+                    cf = Q.crate_fields(f_)
+                    if cf and cf[-1] in fields and not i_[len(i_):] and Q.strip(ev, x[2])[0] == "field" and Q.strip(ev, x[2])[2] == cf[-1][1]:
+                        bad.append("the list %s.%s is replaced" % (cf[-1][0].rsplit("::", 1)[1], cf[-1][1]))
+                    continue
                 if x[0] != "call" or x[2].local or not x[3]:
                     continue
                 n += 1
@@ -347,7 +354,7 @@ def par_shape(ctx, report, rule, facts, config):
     cov = coverage(prog, b, Src(SELF, ["stages"]), {"execute"})
     report.ob(rule, "route/dispatch_par->execute", cov.status == "once", cov.detail, site=b.loc(), config=config)
     b = F.inh(facts, A.AD, "dispatch")
-    cov = coverage(prog, b, Src(F._is_call_named("sender"), ["#1", "stages"]), {"execute"})
+    cov = coverage(prog, b, Src(F._is_call_named("sender"), F.sender_parts(facts)[1] + ["stages"]), {"execute"})
     report.ob(rule, "route/async-job->execute", cov.status == "once", cov.detail, site=b.loc(), config=config)
     b = F.inh(facts, A.DISP, "dispatch")
     cov = coverage(prog, b, Src(SELF, ["inner"]), {"dispatch"})
@@ -654,13 +661,14 @@ def async_job(ctx, report, rule, facts, config):
             cap.append("self.data.sender() is called %d time(s)" % len(sc))
             continue
         pair = sc[0][4]
+        tx_p, st_p = F.sender_parts(facts)
         spawns = [i_ for i_, x in enumerate(events) if x[0] == "once" and x[2] == "spawn"]
         if len(spawns) != 1:
             pr.append("the job is spawned %d time(s)" % len(spawns))
             continue
         job = events[spawns[0] + 1:]
         sends = [(i_, x) for i_, x in enumerate(job) if x[0] == "call" and x[2].name == "send" and "mpsc" in x[2].path]
-        loops = [(i_, x) for i_, x in enumerate(job) if x[0] == "loop" and x[1].source is not None and sroot(ev, x[1].source) == (pair, ["#1", "stages"])]
+        loops = [(i_, x) for i_, x in enumerate(job) if x[0] == "loop" and x[1].source is not None and sroot(ev, x[1].source) == (pair, st_p + ["stages"])]
         if len(sends) != 1 or len(loops) != 1:
             pr.append("%d send / %d stage loop(s)" % (len(sends), len(loops)))
             continue
@@ -672,7 +680,7 @@ def async_job(ctx, report, rule, facts, config):
         if Q.calls_in([x for _, x in loops], lambda c: c.name == "send" and "mpsc" in c.path, deep=True):
             pr.append("the state is sent from inside the stage loop")
         a = sends[0][1][3]
-        if not (sroot(ev, a[0]) == (pair, ["#0"]) and sroot(ev, a[1]) == (pair, ["#1"])):
+        if not (sroot(ev, a[0]) == (pair, tx_p) and sroot(ev, a[1]) == (pair, st_p)):
             cap.append("what is sent back is not the state handed out by sender(), through its sender")
     report.ob(rule, "job/send-after-stages", not pr, "the state is sent back exactly once, after the full stage loop" if not pr else
               "the state is sent back before every stage has run, or not exactly once: %s" % "; ".join(sorted(set(pr))), site=d.loc(), config=config)
